@@ -34,11 +34,17 @@ impl<T: DatabaseConnection> DatabaseManager for T {
         for table in tables.iter() {
             tx.execute(table, [])?;
         }
+        #[cfg(feature = "verif")]
+        crate::verif::crash_point("common::create_tables:before_commit");
         tx.commit()
     }
 
     /// Generic method to store data into the database.
     fn store_data<P: Params>(&self, query: &str, params: P) -> Result<(), Error> {
+        #[cfg(feature = "verif")]
+        crate::verif::crash_point("common::store_data:before");
+        #[cfg(feature = "verif")]
+        let _after = CrashPointAfter("common::store_data:after");
         match self.get_connection().execute(query, params) {
             Ok(_) => Ok(()),
             Err(e) => match e {
@@ -57,6 +63,10 @@ impl<T: DatabaseConnection> DatabaseManager for T {
 
     /// Generic method to remove data from the database.
     fn remove_data<P: Params>(&self, query: &str, params: P) -> Result<(), Error> {
+        #[cfg(feature = "verif")]
+        crate::verif::crash_point("common::remove_data:before");
+        #[cfg(feature = "verif")]
+        let _after = CrashPointAfter("common::remove_data:after");
         match self.get_connection().execute(query, params).unwrap() {
             0 => Err(Error::NotFound),
             _ => Ok(()),
@@ -68,5 +78,16 @@ impl<T: DatabaseConnection> DatabaseManager for T {
         // Updating data is fundamentally the same as deleting it in terms of interface.
         // A query is sent and either no row is modified or some rows are
         self.remove_data(query, params)
+    }
+}
+
+/// Fires a crash point when the enclosing durable write has returned (feature `verif` only).
+#[cfg(feature = "verif")]
+struct CrashPointAfter(&'static str);
+
+#[cfg(feature = "verif")]
+impl Drop for CrashPointAfter {
+    fn drop(&mut self) {
+        crate::verif::crash_point(self.0);
     }
 }
